@@ -46,6 +46,36 @@ fn main() {
                 w.flush().unwrap();
             }
         }
+        "gen-fn" => {
+            if args.len() < 5 {
+                usage();
+            }
+            let seed: u64 = args[4].parse().unwrap_or(1);
+            let mut fx = mh_harness::fngen::Fx::new(seed, args[3] == "thorough");
+            if !mh_harness::fngen::generate(&args[2], &mut fx) {
+                usage();
+            }
+            let stdout = std::io::stdout();
+            let mut w = std::io::BufWriter::new(stdout.lock());
+            for c in &fx.out {
+                writeln!(w, "{}", c).unwrap();
+            }
+        }
+        "exec-fn" => {
+            std::panic::set_hook(Box::new(|_| {}));
+            let stdin = std::io::stdin();
+            let stdout = std::io::stdout();
+            let mut w = std::io::BufWriter::with_capacity(1 << 20, stdout.lock());
+            for line in stdin.lock().lines() {
+                let line = line.unwrap();
+                if line.trim().is_empty() {
+                    continue;
+                }
+                let case: serde_json::Value = serde_json::from_str(&line).unwrap();
+                mh_harness::fnexec::run_case(&case, &mut w);
+                w.flush().unwrap();
+            }
+        }
         "srv" => {
             // mh srv <domain> <seed> <n-histories> [sockdir]
             if args.len() < 5 {
